@@ -67,11 +67,37 @@ def parse_axioms(build_log_or_src_outputs):
     return res
 
 
+def sources_digest():
+    h = hashlib.sha256()
+    for root, dirs, files in os.walk(LEAN):
+        dirs[:] = sorted(d for d in dirs if d != ".lake")
+        for f in sorted(files):
+            if f.endswith(".lean") or f.endswith(".toml"):
+                p = os.path.join(root, f)
+                h.update(p.encode())
+                h.update(open(p, "rb").read())
+    return h.hexdigest()
+
+
 def prop_axioms(module):
-    """Re-elaborate one Props module to read its `#print axioms` output (lake replays it from cache
-    only when the module was rebuilt, so ask lean directly; ~1-3 s)."""
+    """Re-elaborate one Props module to read its `#print axioms` output (after `lake build` has checked the
+    proofs).  The output is cached under .lake keyed by a digest of *all* Lean sources, so an unchanged
+    project is not re-elaborated on every run."""
     path = os.path.join(LEAN, *module.split(".")) + ".lean"
+    cdir = os.path.join(LEAN, ".lake", "axioms_cache")
+    os.makedirs(cdir, exist_ok=True)
+    key = sources_digest()
+    cfile = os.path.join(cdir, module + ".json")
+    if os.path.exists(cfile):
+        try:
+            c = json.load(open(cfile))
+            if c.get("key") == key:
+                return True, c["out"], parse_axioms(c["out"])
+        except Exception:
+            pass
     rc, out = sh(["lake", "env", "lean", path], cwd=LEAN, timeout=1800)
+    if rc == 0:
+        json.dump(dict(key=key, out=out), open(cfile, "w"))
     return rc == 0, out, parse_axioms(out)
 
 
